@@ -103,6 +103,11 @@ def code_data_from_json(value: object) -> CodeData:
     if not isinstance(value, dict):
         raise ValueError(f"Expected dict, got {type(value)}")
     value = copy(value)
+    for k in ("filename", "name"):
+        if k in value:
+            value[k] = string_from_json(value[k])
+    if "freevars" in value:
+        value["freevars"] = tuple(map(string_from_json, value["freevars"]))
     if "blocks" in value:
         value["blocks"] = tuple(
             tuple(instruction_from_json(i) for i in block) for block in value["blocks"]
@@ -110,8 +115,17 @@ def code_data_from_json(value: object) -> CodeData:
     if "type" in value:
         # copy so we don't modify the nested dict of the input
         tp = copy(value["type"])
+        if "docstring" in tp:
+            tp["docstring"] = string_from_json(tp["docstring"])
         if "args" in tp:
-            tp["args"] = Args(**lists_values_to_tuples(tp["args"]))
+            tp["args"] = Args(
+                **{
+                    k: tuple(map(string_from_json, v))
+                    if isinstance(v, list)
+                    else string_from_json(v)
+                    for k, v in tp["args"].items()
+                }
+            )
         value["type"] = Function(**tp)
     if "flags" in value:
         value["flags"] = frozenset(value["flags"])
@@ -124,6 +138,16 @@ def code_data_from_json(value: object) -> CodeData:
             **lists_values_to_tuples(value["_additional_line"])
         )
     return CodeData(**lists_values_to_tuples(value))
+
+
+def string_from_json(value: object) -> object:
+    """
+    Parse a JSON value for a string, which is either the string itself or an object
+    with the repr of a string which cannot be encoded as unicode.
+    """
+    if isinstance(value, dict) and "string" in value:
+        return literal_eval(value["string"])
+    return value
 
 
 def lists_values_to_tuples(d):
@@ -155,6 +179,9 @@ def arg_from_json(value: object) -> Arg:
         raise ValueError(f"Expected dict, got {type(value)}")
     if "target" in value:
         return Jump(**value)
+    for k in ("name", "varname", "freevar", "cellvar"):
+        if k in value:
+            value = {**value, k: string_from_json(value[k])}
     if "name" in value:
         return Name(**value)
     if "varname" in value:
